@@ -13,32 +13,24 @@ From V Require Import model.Base model.Names proofs.NamesProofs proofs.NamesConn
 (* ---------------------------------------------------------------------------------- *)
 (* (1) constructors: accepted iff the rules hold; the value is the input; never a panic.
    t ranges over FileName, Path, FilePath, Base64Url, UserName, GroupName and
-   RestrictedFileName<c> for every c >= 1 (wf_ty is the static_assert of the real type). *)
-Theorem c19_accept_iff : forall (t : ty) (b : str), wf_ty t ->
+   RestrictedFileName<c> for every capacity c. *)
+Theorem c19_accept_iff : forall (t : ty) (b : str),
   (sem_new (sty_of t) b = Val (inl b) <-> rules_of t b = true) /\
   (forall s, sem_new (sty_of t) b = Val (inl s) -> s = b) /\
   sem_new (sty_of t) b <> Panic.
 Proof. exact accept_iff. Qed.
-Check c19_accept_iff : forall (t : ty) (b : str), wf_ty t ->
+Check c19_accept_iff : forall (t : ty) (b : str),
   (sem_new (sty_of t) b = Val (inl b) <-> rules_of t b = true) /\
   (forall s, sem_new (sty_of t) b = Val (inl s) -> s = b) /\
   sem_new (sty_of t) b <> Panic.
 Print Assumptions c19_accept_iff.
-Example c19_accept_iff_nonvacuous : wf_ty TFileName /\ wf_ty (TRestricted 1) /\
-  sem_new (sty_of TFileName) [97; 46; 98]%N = Val (inl [97; 46; 98]%N) /\ rules_of TFileName [46; 46]%N = false.
-Proof. unfold wf_ty. repeat split; try (apply Nat.leb_le); vm_compute; reflexivity. Qed.
-Print Assumptions c19_accept_iff_nonvacuous.
 
-(* the reported error kind: `constructor = spec constructor' is false (F15: a NUL / non-ASCII
-   byte is reported as ExceedsMaximumLength) and holds outside exactly that class *)
-Definition c19_accept_error_kind_full : Prop := new_matches_spec_full.
-Theorem c19_accept_error_kind_refuted : ~ c19_accept_error_kind_full.
-Proof. exact new_matches_spec_refuted. Qed.
-Print Assumptions c19_accept_error_kind_refuted.
-Theorem c19_accept_error_kind_partial : forall (t : ty) (b : str), wf_ty t ->
-  err_kind_class (cap_of t) [] (OpPushBytes b) = false -> sem_new (sty_of t) b = spec_new t b.
+(* the constructor IS the spec constructor, reported error kind included: too long =>
+   ExceedsMaximumLength, every other rejection => InvalidContent (F15 repaired by 47ad8e2) *)
+Theorem c19_accept_error_kind_full : forall (t : ty) (b : str), sem_new (sty_of t) b = spec_new t b.
 Proof. exact new_matches_spec. Qed.
-Print Assumptions c19_accept_error_kind_partial.
+Check c19_accept_error_kind_full : forall (t : ty) (b : str), sem_new (sty_of t) b = spec_new t b.
+Print Assumptions c19_accept_error_kind_full.
 
 (* ServiceName::new / NodeName::new on every &str (= every UTF-8 byte string) *)
 Theorem c19_service_name_accept : forall b, utf8_valid b = true ->
@@ -60,7 +52,15 @@ Print Assumptions c19_str_names_nonvacuous.
 (* ---------------------------------------------------------------------------------- *)
 (* (2) mutators (push, push_bytes, insert, insert_bytes, pop, remove, remove_range, retain,
    strip_prefix, strip_suffix, truncate), every argument, every valid value of every type:
-   whenever the call returns, the value is still valid, and on an error it is unchanged *)
+   the code does exactly what the list-level spec says (compute the candidate, commit it iff
+   it obeys the rules, otherwise report an error and change nothing) *)
+Theorem c19_mutators_match_spec_full : forall (t : ty) (s : str) (o : sop),
+  rules_of t s = true -> sem_apply (sty_of t) s o = spec_apply t s o.
+Proof. exact mutators_refine. Qed.
+Check c19_mutators_match_spec_full : forall (t : ty) (s : str) (o : sop),
+  rules_of t s = true -> sem_apply (sty_of t) s o = spec_apply t s o.
+Print Assumptions c19_mutators_match_spec_full.
+(* whenever the call returns, the value is still valid, and on an error it is unchanged *)
 Theorem c19_mutators_preserve : forall (t : ty) (s : str) (o : sop) (s' : str) (r : sobs),
   rules_of t s = true -> sem_apply (sty_of t) s o = Val (s', r) ->
   match r with ObErr _ => s' = s | _ => rules_of t s' = true end.
@@ -69,40 +69,37 @@ Check c19_mutators_preserve : forall (t : ty) (s : str) (o : sop) (s' : str) (r 
   rules_of t s = true -> sem_apply (sty_of t) s o = Val (s', r) ->
   match r with ObErr _ => s' = s | _ => rules_of t s' = true end.
 Print Assumptions c19_mutators_preserve.
-(* ... and it panics exactly for an insert index beyond the end (documented) and on the two
-   defect classes full_zero_class / log_buffer_class *)
+(* and a mutator panics exactly for an insert index beyond the end (documented) *)
 Theorem c19_mutators_panic_iff : forall (t : ty) (s : str) (o : sop), rules_of t s = true ->
   (sem_apply (sty_of t) s o = Panic <->
-   (match inserted_bytes s o with Some (i, _) => length s < i | None => False end) \/
-   full_zero_class (cap_of t) s o = true \/ log_buffer_class (rules_of t) s o = true).
+   match inserted_bytes s o with Some (i, _) => length s < i | None => False end).
 Proof. exact mutators_panic_iff. Qed.
+Check c19_mutators_panic_iff : forall (t : ty) (s : str) (o : sop), rules_of t s = true ->
+  (sem_apply (sty_of t) s o = Panic <->
+   match inserted_bytes s o with Some (i, _) => length s < i | None => False end).
 Print Assumptions c19_mutators_panic_iff.
-(* `every mutator does exactly what the spec says' is false (three classes), true outside *)
-Definition c19_mutators_match_spec_full : Prop := mutators_match_spec_full.
-Theorem c19_mutators_match_spec_refuted : ~ c19_mutators_match_spec_full.
-Proof. exact mutators_match_spec_refuted. Qed.
-Print Assumptions c19_mutators_match_spec_refuted.
-Theorem c19_mutators_match_spec_partial : forall (t : ty) (s : str) (o : sop),
-  rules_of t s = true -> known_class (cap_of t) (rules_of t) s o = false ->
-  sem_apply (sty_of t) s o = spec_apply t s o.
-Proof. exact mutators_refine. Qed.
-Check c19_mutators_match_spec_partial : forall (t : ty) (s : str) (o : sop),
-  rules_of t s = true -> known_class (cap_of t) (rules_of t) s o = false ->
-  sem_apply (sty_of t) s o = spec_apply t s o.
-Print Assumptions c19_mutators_match_spec_partial.
 Example c19_mutators_nonvacuous :
   rules_of TFilePath [97; 47; 98]%N = true /\
-  known_class (cap_of TFilePath) (rules_of TFilePath) [97; 47; 98]%N (OpPop) = false /\
   sem_apply (sty_of TFilePath) [97; 47; 98]%N OpPop = Val ([97; 47; 98]%N, ObErr InvalidContent) /\
-  sem_apply (sty_of TFilePath) [97; 47; 98]%N (OpPush 99%N) = Val ([97; 47; 98; 99]%N, ObUnit).
+  sem_apply (sty_of TFilePath) [97; 47; 98]%N (OpPush 99%N) = Val ([97; 47; 98; 99]%N, ObUnit) /\
+  sem_apply (sty_of TFilePath) [97; 47; 98]%N (OpInsert 4 99%N) = Panic.
 Proof. repeat split; vm_compute; reflexivity. Qed.
 Print Assumptions c19_mutators_nonvacuous.
-Example c19_mutators_witnesses :
-  (sem_apply FileNameT [97]%N (OpPush 128%N) = Val ([97]%N, ObErr ExceedsMaximumLength)) /\
-  (sem_apply (RestrictedFileNameT 2) [97; 98]%N (OpRemoveRange 0 0) = Panic) /\
-  (sem_apply FileNameT str_a124 (OpStripPrefix str_a124) = Panic).
-Proof. repeat split; vm_compute; reflexivity. Qed.
-Print Assumptions c19_mutators_witnesses.
+(* regression: the witnesses of the six defect classes repaired in /repo (47ad8e2, 8cf1846,
+   c6cc798, 19ab506, a263455, e2099f0) evaluated on the model of the code as it is now *)
+Example c19_regression_witnesses :
+  sem_apply FileNameT [97]%N (OpPush 128%N) = Val ([97]%N, ObErr InvalidContent) /\
+  sem_new FileNameT [0]%N = Val (inr InvalidContent) /\
+  sem_apply (RestrictedFileNameT 2) [97; 98]%N (OpRemoveRange 0 0) = Val ([97; 98]%N, ObUnit) /\
+  sem_apply (RestrictedFileNameT 2) [97; 98]%N (OpStripPrefix []) = Val ([97; 98]%N, ObBool true) /\
+  sem_apply (RestrictedFileNameT 2) [97; 98]%N (OpStripSuffix []) = Val ([97; 98]%N, ObBool true) /\
+  sem_apply FileNameT str_a124 (OpStripPrefix str_a124) = Val (str_a124, ObErr InvalidContent) /\
+  nc_extract_name_from_file cfg_a [97; 46; 115]%N = Val None /\
+  nc_extract_name_from_file cfg_a [97]%N = Val None /\
+  path_add_path_entry [97]%N (repeat 98%N 254) = Val ([97]%N, inr ExceedsMaximumLength) /\
+  fp_from_path_and_file (repeat 97%N 200) (repeat 98%N 54) = Val (inl (repeat 97%N 200 ++ [47]%N ++ repeat 98%N 54)).
+Proof. exact regression_witnesses. Qed.
+Print Assumptions c19_regression_witnesses.
 
 (* ---------------------------------------------------------------------------------- *)
 (* (3) an accepted FileName is a safe single path component *)
@@ -144,6 +141,16 @@ Example c19_contained_nonvacuous :
 Proof. split; [exact cfg_a_valid|]. split; vm_compute; reflexivity. Qed.
 Print Assumptions c19_contained_nonvacuous.
 
+(* Path::add_path_entry is all or nothing, FilePath::from_path_and_file is the plain
+   concatenation whenever it fits and never panics *)
+Theorem c19_add_path_entry_atomic : forall s e, path_rules s = true -> path_rules e = true ->
+  lift (fun _ : unit => ObUnit) (path_add_path_entry s e) = spec_add_path_entry s e.
+Proof. exact add_path_entry_spec. Qed.
+Print Assumptions c19_add_path_entry_atomic.
+Theorem c19_from_path_and_file_spec : forall p f, fp_from_path_and_file p f = spec_from_path_and_file p f.
+Proof. exact from_path_and_file_spec. Qed.
+Print Assumptions c19_from_path_and_file_spec.
+
 (* (5) round trip of names through path_for / extract_name_from_{file,path} *)
 Theorem c19_name_roundtrip : forall c n p, valid_cfg c -> filename_rules n = true -> nc_path_for c n = Val p ->
   nc_extract_name_from_file c (fp_file_name p) = Val (Some n) /\
@@ -181,18 +188,16 @@ Example c19_isolation_nonvacuous :
 Proof. split; [exact cfg_a_valid|]. split; [exact cfg_b_valid|]. repeat split; vm_compute; reflexivity. Qed.
 Print Assumptions c19_isolation_nonvacuous.
 
-(* (7) listing a directory that contains a foreign file: `extract never panics on a valid
-   file name' is FALSE (a file named prefix, prefix+suffix, prefix+".", ... is a fatal
-   panic); outside exactly that class extract = the spec (Some for our files, None else) *)
-Definition c19_extract_total_full : Prop := extract_total_full.
-Theorem c19_extract_total_refuted : ~ c19_extract_total_full.
-Proof. exact extract_total_refuted. Qed.
-Print Assumptions c19_extract_total_refuted.
-Theorem c19_extract_total_partial : forall c f, valid_cfg c -> filename_rules f = true ->
-  (nc_extract_name_from_file c f = Panic <-> stray_class c f = true) /\
-  (stray_class c f = false -> nc_extract_name_from_file c f = spec_extract_name_from_file c f).
-Proof. exact extract_total_partial. Qed.
-Print Assumptions c19_extract_total_partial.
+(* (7) listing a directory that contains foreign files: extract_name_from_file is exactly the
+   spec -- Some n for prefix ++ n ++ suffix with n a valid name, None for every other valid
+   file name -- and never panics (repaired by 19ab506) *)
+Theorem c19_extract_total_full : forall c f, valid_cfg c -> filename_rules f = true ->
+  nc_extract_name_from_file c f = spec_extract_name_from_file c f /\
+  nc_extract_name_from_file c f <> Panic.
+Proof. exact extract_total. Qed.
+Check c19_extract_total_full : forall c f, valid_cfg c -> filename_rules f = true ->
+  nc_extract_name_from_file c f = spec_extract_name_from_file c f /\ nc_extract_name_from_file c f <> Panic.
+Print Assumptions c19_extract_total_full.
 
 (* (8) connection names (naming_scheme.rs: connection_name = decimal(sender) _ decimal(receiver);
    the three pub(crate) functions are tied through a source slice made by the harness' build.rs):
@@ -210,3 +215,49 @@ Example c19_connection_roundtrip_nonvacuous :
     [51; 52; 48; 50; 56; 50; 51; 54; 54; 57; 50; 48; 57; 51; 56; 52; 54; 51; 52; 54; 51; 51; 55; 52; 54; 48; 55; 52; 51; 49; 55; 54; 56; 50; 49; 49; 52; 53; 53; 95; 55]%N.
 Proof. split; vm_compute; reflexivity. Qed.
 Print Assumptions c19_connection_roundtrip_nonvacuous.
+
+(* ---------------------------------------------------------------------------------- *)
+(* (9) FileName values that never went through FileName::new: FilePath::file_name() and
+   Path::entries() wrap their pieces with new_unchecked.  `they only hand out valid file names'
+   is FALSE: file_name of the valid FilePath "x\y" is "x\y" (backslash is forbidden in a
+   FileName), entries of the valid Path "/t/.." contains "..".
+   What they do guarantee (partial): non-empty, separator-free, path characters, <= 255 bytes,
+   and for file_name additionally not "." / "..". *)
+Definition c19_unchecked_conversions_full : Prop := unchecked_conversions_full.
+Theorem c19_unchecked_conversions_refuted : ~ c19_unchecked_conversions_full.
+Proof. exact unchecked_conversions_refuted. Qed.
+Print Assumptions c19_unchecked_conversions_refuted.
+Theorem c19_unchecked_conversions_partial :
+  (forall p, filepath_rules p = true ->
+     unchecked_fn (fp_file_name p) /\ component_ok (fp_file_name p) = true /\ length (fp_file_name p) <= 255) /\
+  (forall p e, path_rules p = true -> In e (path_entries p) -> unchecked_fn e /\ length e <= 255).
+Proof. exact (conj file_name_unchecked entries_unchecked). Qed.
+Print Assumptions c19_unchecked_conversions_partial.
+(* Consequence for C19.  CONTAINMENT is not affected: it holds for every prefix / name / suffix
+   the unchecked conversions can produce, because the three are concatenated into one
+   separator-free component of at least 3 bytes: *)
+Theorem c19_contained_unchecked : forall c n p, unchecked_cfg c -> unchecked_fn n -> nc_path_for c n = Val p ->
+  let comp := prefix c ++ n ++ suffix c in
+  p = with_sep (path_hint c) ++ comp /\
+  (nosep comp = true /\ component_ok comp = true /\ length comp <= 255) /\
+  fp_file_name p = comp /\
+  filepath_rules p = true /\
+  path_entries p = path_entries (path_hint c) ++ [comp] /\
+  same_directory (path_hint c) (fp_path p) = true.
+Proof. exact path_for_contained_unchecked. Qed.
+Print Assumptions c19_contained_unchecked.
+(* ROUND TRIP is affected: a resource created under such a name exists (path_for succeeds,
+   inside the root) but extract_name_from_file answers None for its file, so list() never
+   shows it.  API-level history (replayed by harness/g3/c19 `iso`):
+     let n = FilePath::new(b"d/x\y")?.file_name();            // or Path::new(b"/tmp/..")?.entries()[1]
+     FileName::new(n.as_bytes())                              // Err(InvalidContent)
+     static_storage::file::Builder::new(&n).config(&cfg).create(b"..")   // Ok: <root>/a_x\y.service
+     static_storage::file::Storage::list_cfg(&cfg)            // does not contain n
+   and, through NodeDetails::new (executable = Process::executable().file_name()): a process
+   whose executable file name contains a backslash creates a node whose details no process
+   can read back (Node::list shows it alive without details). *)
+Definition c19_unchecked_roundtrip_full : Prop := unchecked_roundtrip_full.
+Theorem c19_unchecked_roundtrip_refuted : ~ c19_unchecked_roundtrip_full.
+Proof. exact unchecked_roundtrip_refuted. Qed.
+Print Assumptions c19_unchecked_roundtrip_refuted.
+(* the strongest true statement is c19_name_roundtrip: names accepted by FileName::new round-trip *)
